@@ -28,6 +28,7 @@ type Plan struct {
 	Tasks  [][]Op      `json:"tasks"`
 	Yields []int       `json:"yields"` // per key: yields inside f
 	Nil    []bool      `json:"nil"`    // per key: f returns nil
+	Val    []int       `json:"val,omitempty"`  // per key: what kind of value f returns (0 a string, 1 true, 2 false, 3 an int, 4 a pointer)
 	Slow   []int       `json:"slow,omitempty"` // per key: simulated seconds f takes (it sleeps on the fake clock)
 	Sched  simrt.Sched `json:"sched"`
 }
@@ -45,6 +46,7 @@ func genPlan(t *rapid.T, tier string) any {
 			slow = rapid.SampledFrom([]int{1, 6, 61, 3600}).Draw(t, "slowsecs")
 		}
 		p.Slow = append(p.Slow, slow)
+		p.Val = append(p.Val, rapid.SampledFrom([]int{0, 0, 0, 1, 2, 3, 4}).Draw(t, "valkind"))
 	}
 	for i := 0; i < nt; i++ {
 		n := rapid.IntRange(1, 4).Draw(t, "nops")
@@ -128,6 +130,18 @@ func run(t *testing.T, plan any, keep bool) *simcheck.Outcome {
 						var r any
 						if !p.Nil[k] {
 							r = fmt.Sprintf("k%d#%d", k, invocations[k])
+							if k < len(p.Val) {
+								switch p.Val[k] {
+								case 1:
+									r = true
+								case 2:
+									r = false
+								case 3:
+									r = 1000*k + invocations[k]
+								case 4:
+									r = &invocations[k]
+								}
+							}
 						}
 						value[k] = r
 						fRunning[k] = false
@@ -179,7 +193,7 @@ func run(t *testing.T, plan any, keep bool) *simcheck.Outcome {
 var harness = &simcheck.Harness{
 	Property: "C10",
 	Level:    "exploration",
-	Rule: "rapid draws 2-5 client tasks with 1-4 Do/Get calls each over 1-3 keys, yield counts inside f, nil-returning keys, and a schedule; " +
+	Rule: "rapid draws 2-5 client tasks with 1-4 Do/Get calls each over 1-3 keys, yield counts inside f, nil-returning keys, values of several kinds (string, bool, int, struct), and a schedule; " +
 		"non-trivial = a second Do or a Get was issued for a key while its f was in progress; distinct by decision-trace hash",
 	Gen:     genPlan,
 	NewPlan: func() any { return &Plan{} },
